@@ -2475,6 +2475,17 @@ SDIgetcoordvar(NC     *handle, /* IN: file handle */
                     (*dp)->var_type == UNKNOWN) {
                     /* see if we need to change the number type */
                     if ((nt != 0) && (nt != (*dp)->HDFtype)) {
+                        /* values already stored have the old element size and their data element
+                           cannot grow: a scale of another size gets a new element */
+                        if (handle->file_type == HDF_FILE && (*dp)->data_ref != 0 && DFKNTsize(nt) != (*dp)->HDFsize) {
+                            if (SDIfreevarAID(handle, (int32)ii) == FAIL ||
+                                Hdeldd(handle->hdf_file, (*dp)->data_tag, (uint16)(*dp)->data_ref) == FAIL) {
+                                HGOTO_ERROR(DFE_CANTDELDD, FAIL);
+                            }
+                            (*dp)->data_ref = 0;
+                            (*dp)->numrecs  = 0;
+                        }
+
                         if (((*dp)->type = hdf_unmap_type((int)nt)) == FAIL) {
                             HGOTO_ERROR(DFE_INTERNAL, FAIL);
                         }
